@@ -291,13 +291,18 @@ def _shared_shard(args):
     base_lists = [[2, 3, -1, 0, 3], [0, 2], [3], [2, 0, 2, 3]]
     for key in keys:
         for items in base_lists:
-            for variant in ("dup", "dup-reversed", "dup-after-peek", "dup-tail", "reversed-dup-after-peek"):
+            for variant in ("dup", "dup-reversed", "dup-after-peek", "dup-tail", "reversed-dup-after-peek",
+                            "dup-vs-reversed-original-after-peek", "dup-vs-reversed-original"):
                 a = LazyList(iter(list(items)))
-                if variant == "dup-after-peek" or variant == "reversed-dup-after-peek":
+                if variant in ("dup-after-peek", "reversed-dup-after-peek", "dup-vs-reversed-original-after-peek"):
                     a[0]
                 b = deep_copy(a)
                 want_b = list(items)
-                if variant in ("dup-reversed", "reversed-dup-after-peek"):
+                if variant.startswith("dup-vs-reversed-original"):
+                    # the duplicate is one operand, the reversal of the ORIGINAL object the other
+                    a, b = b, E.reverse(a, ctx)
+                    want_b = list(items)[::-1]
+                elif variant in ("dup-reversed", "reversed-dup-after-peek"):
                     b = E.reverse(b, ctx)
                     want_b = list(items)[::-1]
                 elif variant == "dup-tail":
@@ -328,10 +333,12 @@ def _shared_shard(args):
                                        want, got[1], size=len(items) + 50)
                     # fresh objects for the other order
                     a = LazyList(iter(list(items)))
-                    if variant in ("dup-after-peek", "reversed-dup-after-peek"):
+                    if variant in ("dup-after-peek", "reversed-dup-after-peek", "dup-vs-reversed-original-after-peek"):
                         a[0]
                     b = deep_copy(a)
-                    if variant in ("dup-reversed", "reversed-dup-after-peek"):
+                    if variant.startswith("dup-vs-reversed-original"):
+                        a, b = b, E.reverse(a, ctx)
+                    elif variant in ("dup-reversed", "reversed-dup-after-peek"):
                         b = E.reverse(b, ctx)
                     elif variant == "dup-tail":
                         b = E.head_remove(b, ctx)
